@@ -193,10 +193,50 @@ def register_leb_layouts():
 register_leb_layouts()
 
 
+def _min_size(nf):
+    s = nf_size(nf)
+    if s is not None:
+        return s, True
+    k = nf[0]
+    if k == 'initial_length':
+        return 4, False
+    if k in ('uleb', 'sleb'):
+        return 1, False
+    if k == 'cstring':
+        return 1, False
+    if k == 'enum':
+        return _min_size(nf[1])
+    return 0, False
+
+
+def _offset_facts(nfs):
+    """for the StreamOffset members of a struct: (name, lower bound of value - start, exact?) over
+    the given configuration variants; exact only while every preceding member has the same fixed
+    size in all variants"""
+    per = []
+    for nf in nfs:
+        out, lo, exact = {}, 0, True
+        for n, sub in nf[1]:
+            if sub[0] == 'offset' and n:
+                out[n] = (lo, exact)
+            m, fixed = _min_size(sub)
+            lo += m
+            exact = exact and fixed
+        per.append(out)
+    facts = []
+    for n in per[0]:
+        los = [p[n][0] for p in per if n in p]
+        ex = all(p[n][1] for p in per if n in p) and len(set(los)) == 1
+        facts.append((n, min(los), ex))
+    return facts
+
+
 def register_dwarf_layouts():
     from specs.dwarf_layouts import layouts as dl
     L32, F32, P32, T32 = dl(True, 32, 8, 5)
     L64, F64, P64, T64 = dl(True, 64, 8, 5)
+
+    variants = [dl(True, f, a, 5)[0] for f in (32, 64) for a in (4, 8)]
 
     def shape_of(nf):
         if nf[0] == 'initial_length':
@@ -216,7 +256,9 @@ def register_dwarf_layouts():
                 continue
             fields[n] = shape_of(sub)
         if name not in LAYOUTS:
-            register_layout(Layout(name, fields, size=None, minsize=0, nf=None))
+            lay = Layout(name, fields, size=None, minsize=0, nf=None)
+            lay.offset_facts = _offset_facts([v[name] for v in variants])
+            register_layout(lay)
     fixed = {'Dwarf_uint8': (1, S.U8), 'Dwarf_uint16': (2, S.U16), 'Dwarf_uint24': (3, S.U(24)), 'Dwarf_uint32': (4, S.U32),
              'Dwarf_uint64': (8, S.U64), 'Dwarf_int8': (1, S.S(8)), 'Dwarf_int16': (2, S.S(16)), 'Dwarf_int32': (4, S.S(32)),
              'Dwarf_int64': (8, S.S(64)), 'the_Dwarf_uint8': (1, S.U8), 'the_Dwarf_uint16': (2, S.U16),
